@@ -436,6 +436,18 @@ theorem stepEv_sound {T : Tables} (hK : keepOK T = true) {A A' : Abs} {cx : Ctx}
     · cases hs
       have := gamma_changed c.o (some (‹List Nat›.filter fun x => !cx.removed.contains x)) h
       exact gamma_weaken (A := { A with chgSet := true }) (A' := A) (fun _ hK => hK) (fun _ hK => hK) (fun hl => hl) rfl (fun _ => rfl) this
+  | changedAttr =>
+    simp only [absEv] at ha
+    split at ha <;> cases ha
+    simp only [stepEv] at hs
+    split at hs
+    · cases hs
+    · cases hs; exact h
+    · split at hs
+      · cases hs
+        exact gamma_weaken (A := { A with chgSet := true }) (A' := A) (fun _ hK => hK) (fun _ hK => hK) (fun hl => hl) rfl
+          (fun _ => rfl) (gamma_changed c.o _ h)
+      · cases hs
   | changedNone =>
     simp only [absEv, Option.some.injEq] at ha; subst ha
     simp only [stepEv, Res.ok.injEq] at hs; subst hs
